@@ -8,7 +8,7 @@ namespace vfspec {
 using namespace fixedmath;
 extern "C" {
 // series kernel asin<20> on its call domain [0, 0.6] (prec 20)
-constexpr bool pre_asin_k(long x) { return x >= 0 && x <= 629152; }
+constexpr bool pre_asin_k(long x) { return x >= 0 && x <= 700000; }     // call sites need [0, 629152]
 constexpr bool post_asin_k(long x, long r) { return r >= x && r <= x + x / 8 && (x != 0 || r == 0); }
 // sqrt as asin uses it: argument in [0, 0.2]; either algorithm is within one ulp of the real root
 constexpr bool pre_sqrt_asin(fixed_t x) { return x.v >= 0 && x.v <= 13107; }
